@@ -467,6 +467,30 @@ def warm_clients(ctx, workdir):
                     e.set("minOccurs", "0")
                     seq.append(e)
     variants["plain+plugin"] = variants["plain"]
+    # a document whose root element has no children at all (a placeholder schema): cached and served like any other
+    variants["empty-import"] = (wsdlkit.wsdl_doc('<xsd:import namespace="urn:empty" schemaLocation="suds://empty.xsd"/>'
+                                                 + schema, "f", "fResponse"),
+                                {"inc.xsd": inc, "empty.xsd": b'<xsd:schema xmlns:xsd="http://www.w3.org/2001/XMLSchema" '
+                                                               b'targetNamespace="urn:empty"/>'})
+
+    class MemCache(suds.cache.Cache):
+        """A cache that keeps the very objects it is given (allowed by the Cache interface)."""
+        shared = {}
+
+        def __init__(self, location=None):
+            self.d = MemCache.shared.setdefault(location, {})
+
+        def get(self, id):
+            return self.d.get(id)
+
+        def put(self, id, object):
+            self.d[id] = object
+
+        def purge(self, id):
+            self.d.pop(id, None)
+
+        def clear(self):
+            self.d.clear()
     for vname, (w, extra) in variants.items():
         docs = dict(extra)
         docs["main.wsdl"] = w
@@ -474,8 +498,14 @@ def warm_clients(ctx, workdir):
         base_store = CountingStore(docs)
         base = suds.client.Client("suds://main.wsdl", documentStore=base_store, cache=None, nosend=True, **plug)
         base_fp = fingerprint(base, reply)
-        for cls in (suds.cache.ObjectCache, suds.cache.DocumentCache):
+        base_np = suds.client.Client("suds://main.wsdl", documentStore=CountingStore(docs), cache=None, nosend=True,
+                                     prettyxml=True, prefixes=False, **plug)
+        env_np = wsdlkit.envelope_bytes(base_np.service.f("v", 3))
+        for cls in (suds.cache.ObjectCache, suds.cache.DocumentCache, MemCache):
             for policy in (0, 1):
+                if cls is MemCache and policy == 0 and plug:
+                    continue     # a cache that hands out the stored document itself + a plugin that edits what it is
+                    #              handed: the edit is applied to the stored object (not a question of this property)
                 d = tempfile.mkdtemp(dir=workdir)
                 meta = {"wsdl": vname, "cache": cls.__name__, "cachingpolicy": policy}
                 ctx.case(common.canon(meta), True)
@@ -487,6 +517,9 @@ def warm_clients(ctx, workdir):
                     s2 = CountingStore(docs)
                     warm = suds.client.Client("suds://main.wsdl", documentStore=s2, cache=cls(location=d),
                                               cachingpolicy=policy, nosend=True, prettyxml=True, **plug)
+                    warm_np = suds.client.Client("suds://main.wsdl", documentStore=CountingStore(docs),
+                                                 cache=cls(location=d), cachingpolicy=policy, nosend=True, prettyxml=True,
+                                                 prefixes=False, **plug)
                 except Exception as e:
                     ctx.fail("client over a %s cache failed" % ("warm" if "cold" in dir() and False else "cold/warm"), meta,
                              repr(e), "a client")
@@ -496,8 +529,13 @@ def warm_clients(ctx, workdir):
                     fp = fingerprint(c, reply)
                     if fp != base_fp:
                         ctx.fail("%s client differs from the cache-less client" % label, meta, fp, base_fp)
-                usable = (cls is suds.cache.ObjectCache) or policy == 0
-                if usable and len(files_after_cold) > 1 and s2.opened:
+                # options that act inside the binding (prefixes) are the warm client's own too
+                got_np = wsdlkit.envelope_bytes(warm_np.service.f("v", 3))
+                if got_np != env_np:
+                    ctx.fail("a warm client built with prefixes=False does not build the request a cache-less client "
+                             "with that option builds", meta, got_np.decode()[:300], env_np.decode()[:300])
+                usable = (cls is suds.cache.ObjectCache) or policy == 0 or cls is MemCache
+                if usable and (len(files_after_cold) > 1 or cls is MemCache) and s2.opened:
                     ctx.fail("warm client fetched documents", meta, s2.opened, [])
                 # call-time options of the warm client are honoured (not the cached object's)
                 env = wsdlkit.envelope_bytes(warm.service.f("v", 3))
